@@ -247,6 +247,7 @@ def directiveParse (inc : IncludeFn) (cur : Str) (incs : List Str)
     | .equ =>
       match ops with
       | .assign (.ident name) v =>
+        if st.ctx.exist name then lineErr ln "equ-twice" else
         ok { st with ctx := { st.ctx with equs := ainsert (lower name) v st.ctx.equs } }
       | .assign _ _ => ok st
       | _ => lineErr ln "equ-args"
